@@ -103,7 +103,13 @@ class HSM2Protocol:
         self._init_mappings()
 
     def handle_request(self, request):
-        self.logger.info("In %s", request)
+        try:
+            self.logger.info("In %s", request)
+        except RecursionError:
+            # A document nested just under the JSON parser's limit is still
+            # too deep to be formatted for the log. Same treatment as one
+            # that the parser itself turns down.
+            return self.format_error()
         response = self.__internal_handle_request(request)
         self.logger.info("Out %s", response)
         return response
